@@ -115,7 +115,9 @@ def canonical(scn, with_cat=True):
 def run(case):
     scn = case["scenario"]
     continuum = world.build_continuum(scn["continuum"])
-    dissim = world.build_dissim(scn["dissim"])
+    # a FRESH dissimilarity object per run: it is the one object shared by all pool jobs, and a run must not
+    # depend on what earlier runs of this worker process did to it (exact replay in a fresh process)
+    dissim = world.build_dissim(scn["dissim"], fresh=True)
     shared = world.build_sampler(scn["sampler"]) if case.get("reuse_sampler") else None
     work = _workload(scn, continuum, dissim, case.get("with_cat", True), shared)
     stats, keys, violations = {}, {"schedules": [], "scenarios": [], "completion_orders": [], "nontrivial": []}, []
